@@ -7,6 +7,7 @@ R2.4 gc precedes StateGraph::new
 R2.5 re-processing a state overwrites all of its edges (sibling agreement of the edge-recording sites)
 """
 from mirlib import *
+from lrstep import widening_walker, loop_assigned, is_call, has_call
 from lrstep import is_call, has_call, find_calls, loop_assigned
 
 META = {
@@ -319,6 +320,61 @@ def r27(facts, res):
         res.ok(R, 'closed-before-merge', loc_of(b, early[0]), 'the closed form is stored before any successor is merged, so a self-loop merge re-opens it')
 
 
+def r28(facts, res):
+    """A goto item set may be merged into an existing state only when that state was found weakly compatible with it (or equal to
+    it): on every path on which weakly_merge is called, a weakly_compatible test of the very state that is merged into came out
+    true.  Re-using "the successor we had last time" skips the test: the old successor may be shared with other predecessors and
+    the enlarged goto set need no longer be compatible with it - an LR(1) grammar then gets a reduce/reduce conflict."""
+    R = 'R2.8'
+    b = pager(facts, R)
+    loops = b.loops()
+    ms = b.calls_named('weakly_merge')
+    wc = b.calls_named('weakly_compatible')
+    if len(ms) != 1 or len(wc) != 1:
+        res.lost(R, 'expected one weakly_merge and one weakly_compatible call, found %d/%d' % (len(ms), len(wc)))
+        return
+    mb = ms[0][0]
+    inl = sorted((h for h in loops if mb in loops[h]), key=lambda h: len(loops[h]))
+    if not inl:
+        res.lost(R, 'weakly_merge is not inside the successor loop')
+        return
+    h = inl[0]
+    w = widening_walker(b, facts)
+    w.widen_headers = set(loops) - {h}
+    w.widen_assigned = {x: loop_assigned(b, x) for x in w.widen_headers}
+    ps = [p for p in w.run(h, stop=lambda x: x not in loops[h]) if any(e[0] == 'call' and e[1] == mb for e in p.events)]
+    if w.overflow or not ps:
+        res.lost(R, 'cannot enumerate the paths to weakly_merge')
+        return
+    bad = None
+    for p in ps:
+        me = [e for e in p.events if e[0] == 'call' and e[1] == mb][0]
+        tgt = strip_ref(me[3][0])
+        kidx = tgt[2][1] if (tgt[0] == 'call' and tgt[1].endswith('::index_mut') or tgt[0] == 'call' and tgt[1].endswith('::index')) else None
+        okc = False
+        for c, v in p.conds:
+            if is_call(c, 'weakly_compatible') and v == 1:
+                ct = strip_ref(c[2][0])
+                cidx = ct[2][1] if (ct[0] == 'call' and ct[1].endswith(('::index', '::index_mut'))) else None
+                if kidx is None or cidx is None or strip_conv(cidx) == strip_conv(kidx):
+                    okc = True
+        if not okc:
+            bad = 'weakly_merge is reached on a path (blocks %s) on which the state merged into was not found weakly compatible with the new item set' % p.blocks[-10:]
+            break
+    if bad:
+        res.bad(R, 'merge-only-compatible', loc_of(b, mb), bad)
+    else:
+        res.ok(R, 'merge-only-compatible', loc_of(b, mb), 'every path to weakly_merge has a successful weakly_compatible test of the state merged into (%d paths)' % len(ps))
+
+
+def strip_conv(t):
+    while isinstance(t, tuple) and t and t[0] in ('conv', 'ref', 'deref'):
+        t = t[2] if t[0] == 'conv' else t[1]
+    if isinstance(t, tuple) and t and t[0] == 'call' and strip_generics(t[1]).split('::')[-1] in ('from', 'into') and len(t[2]) == 1:
+        return strip_conv(t[2][0])
+    return t
+
+
 def r25(facts, res):
     """re-processing a state regenerates ALL its edges: every site that records an edge of the state being processed must
     overwrite a previous edge on that symbol (sibling agreement of the three recording sites)"""
@@ -365,3 +421,4 @@ def run(facts, res):
     r24(facts, res)
     r26(facts, res)
     r27(facts, res)
+    r28(facts, res)
